@@ -476,6 +476,8 @@ def mk_cmp(op, a, b):
                 return TRUE if neg else FALSE
             if is_positive(-d):
                 return FALSE if neg else TRUE
+            if is_nonneg(d):
+                return TRUE if neg else FALSE         # d >= 0 always: d < 0 never holds
             if is_nonneg(-d) and is_integer(d):
                 # d <= 0 always (e.g. -len(x)):  d < 0  <=>  d != 0
                 r = mk_not(mk_cmp('==', -d, Term.num(0)))
@@ -720,6 +722,8 @@ def mk_call(fn, args=(), kwargs=()):
         xa = args[0].single_atom()
         if xa is not None and xa.kind == 'list':
             args = [mk_tuple(xa.args)] + list(args[1:])     # concatenate([a, b]) == concatenate((a, b))
+    if fn == 'copy' and len(args) == 1 and not kwargs:
+        return args[0]              # a copy has the same VALUE (whether it is a copy is decided by the effect/alias rules)
     if fn == 'array' and len(args) == 1 and not kwargs:
         xa = args[0].single_atom()
         if xa is not None and (xa.kind == 'seq' or (xa.kind == 'call' and xa.args[0] in (
@@ -1173,7 +1177,9 @@ def compare(a, b, max_conds=8):
         if budget[0] < 0:
             return UNDECIDED, 'case analysis budget exhausted'
         conds = local_conds(x, y)
-        keys = sorted(k for k in conds if k not in asg)
+        # smallest condition first: a compound condition that contains another one is re-simplified (often folded)
+        # once the inner one is decided, instead of being given a truth value the inner one contradicts
+        keys = sorted((k for k in conds if k not in asg), key=lambda k: (len(k), k))
         if not keys:
             xa, xb = rename_loops(x, 'C'), rename_loops(y, 'C')     # comprehensions that survive this case
             v, w = _compare_flat(xa, xb)
@@ -1189,7 +1195,8 @@ def compare(a, b, max_conds=8):
             asg2[k] = val
             if _infeasible(asg2, allc):
                 continue
-            v, w = rec(assume(x, {k: val}), assume(y, {k: val}), asg2)
+            # (the whole assignment is re-applied: deciding k may re-create a condition that was decided earlier)
+            v, w = rec(assume(x, asg2), assume(y, asg2), asg2)
             if v == DIFFERENT:
                 return v, w
             if v == UNDECIDED:
